@@ -174,6 +174,7 @@ def run(chk):
         chk.bad(rule, fname, '%s%s' % (kind, ':' + key if key else ''), msg + ' [targets 3.%s]' % ', 3.'.join(str(x) for x in sorted(vs)), CODEGEN, line)
     # ---- R4 operand index spaces
     index_space_rule(chk, by_norm, roots, ref)
+    call_pairing_rule(chk, by_norm)
     # ---- R3 who-may-write
     n3 = 0
     for f in d['fns']:
@@ -272,6 +273,76 @@ def space_of(e, fn, spec, env, loop_binds, depth=0):
             return a | b
         return a or b
     return None
+
+
+def call_pairing_rule(chk, by_norm, rid='C14-R5', diverging_only=False):
+    from sa.kinds import callproto as CP
+    chk.rule(rid, ('(version-dependent instances only) ' if diverging_only else '') + 'a method call loads its callee in the form its call instruction consumes, for every combination of target version, keyword arguments, *args, **kwargs and '
+                       'method-ness: LOAD_METHOD (the two-slot pair) only with CALL_METHOD (<= 3.10) or PRECALL/CALL (3.11); CALL_FUNCTION_KW (<= 3.10) and CALL_FUNCTION_EX only with '
+                       'a plain callable (LOAD_ATTR; on 3.11 after PUSH_NULL); the access kind given to the load is the one given to the call (64 truth assignments, paths of '
+                       'emit_call_method with emit_args_311 inlined)')
+    entry = 'PyCodeGenerator::emit_call_method'
+    if not chk.need(entry in by_norm and 'PyCodeGenerator::emit_args_311' in by_norm, 'emit_call_method / emit_args_311 not found'):
+        return
+    events = {'emit_push_null', 'emit_load_method_instr', 'emit_load_attr_instr', 'emit_call_kw_instr', 'emit_call_instr', 'write_instr', 'emit_index_args'}
+    res, unknown = CP.enumerate_paths(by_norm, entry, {'emit_args_311': 'PyCodeGenerator::emit_args_311'}, events)
+    chk.need(not unknown, 'emit_call_method: the access kind of a load / call could not be evaluated (%s)' % unknown[:2])
+    ncomb = 0
+    reported = set()
+    broken = {}       # assignment without the version atom -> set of versions with a problem
+    found = []
+    for bits, traces in sorted(res.items()):
+        asg = dict(zip(CP.ATOMS, bits))
+        for tr in traces:
+            names = [e[0] for e in tr]
+            loads = [e for e in tr if e[0] in ('emit_load_method_instr', 'emit_load_attr_instr')]
+            calls = [e for e in tr if e[0] in ('emit_call_kw_instr', 'emit_call_instr', 'write_instr', 'emit_index_args')]
+            if not loads or not calls:
+                continue          # return / yield / fake-method paths: another protocol
+            ncomb += 1
+            ld, cl = loads[-1], calls[-1]
+            pair = ld[0] == 'emit_load_method_instr' and ld[1] == 'BoundAttr'
+            null = 'emit_push_null' in names[:names.index(ld[0]) + 1]
+            v11 = asg['v11']
+            problem = None
+            if ld[0] == 'emit_load_method_instr' and ld[1] == 'UnboundAttr' and v11:
+                problem = 'emit_load_method_instr(UnboundAttr) on 3.11 writes LOAD_ATTR with the inline cache of LOAD_METHOD'
+            elif cl[0] == 'emit_index_args':
+                problem = None if not null else 'a subscript takes no NULL below the object'
+            elif cl[0] == 'write_instr':
+                if pair:
+                    problem = '%s consumes a plain callable but the callee was loaded with LOAD_METHOD (two stack slots)' % cl[1]
+                elif v11 and not null:
+                    problem = '%s on 3.11 needs PUSH_NULL below the callable' % cl[1]
+            elif cl[0] == 'emit_call_kw_instr':
+                if not v11 and pair:
+                    problem = 'CALL_FUNCTION_KW (<= 3.10) consumes a plain callable but the callee was loaded with LOAD_METHOD'
+                elif v11 and not pair and not null:
+                    problem = 'PRECALL/CALL on 3.11 needs PUSH_NULL below a callable loaded with LOAD_ATTR'
+            elif cl[0] == 'emit_call_instr':
+                if not v11 and (cl[1] == 'BoundAttr') != pair:
+                    problem = 'the call is emitted for access kind %s but the callee was loaded as %s' % (cl[1], 'a LOAD_METHOD pair' if pair else 'a plain callable')
+                elif v11 and not pair and not null:
+                    problem = 'PRECALL/CALL on 3.11 needs PUSH_NULL below a callable loaded with LOAD_ATTR'
+            inst = '%s->%s' % ('LOAD_METHOD' if pair else 'LOAD_ATTR', {'write_instr': cl[1], 'emit_call_kw_instr': 'CALL_KW', 'emit_call_instr': 'CALL', 'emit_index_args': 'SUBSCR'}[cl[0]])
+            rest = tuple(b for a, b in zip(CP.ATOMS, bits) if a != 'v11')
+            if problem is not None:
+                broken.setdefault(rest, set()).add(v11)
+            found.append((inst, bits, rest, v11, problem, cl[2], asg))
+    for inst, bits, rest, v11, problem, line, asg in found:
+        if problem is not None and diverging_only and broken.get(rest) == {True, False}:
+            problem = None          # the same failure on every target: not a difference between targets (C14 reports it)
+        if problem is None:
+            chk.ok(rid, (inst, bits))
+        else:
+            key = (inst, v11)
+            if key in reported:
+                continue
+            reported.add(key)
+            cond = ', '.join('%s=%s' % (a, 'yes' if asg[a] else 'no') for a in CP.ATOMS)
+            chk.bad(rid, entry, '%s@%s' % (inst, '3.11' if v11 else '<=3.10'), 'emit_call_method: %s (reached with %s): the interpreter calls the wrong object / corrupts the stack%s'
+                    % (problem, cond, '; other targets run the same call correctly' if diverging_only else ''), CODEGEN, line)
+    chk.floor('method-call load/call combinations analysed', ncomb, 150)
 
 
 def index_space_rule(chk, by_norm, roots, ref):
